@@ -145,6 +145,7 @@ pub fn teardown_trial(idx: usize, seed: u64) -> ScenarioResult {
         let field = |l: &str, k: &str| -> String { l.split_whitespace().find_map(|t| t.strip_prefix(k).map(|v| v.to_owned())).unwrap_or_default() };
         let mut other = Vec::new();
         let mut rebind_after_timeout = 0u64;
+        let mut rebind_late_after_idle = 0u64;
         for l in &lines {
             let took: u64 = field(l, "took_ms=").parse().unwrap_or(0);
             let bound: u64 = field(l, "idle_bound_ms=").parse().unwrap_or(0);
@@ -152,16 +153,24 @@ pub fn teardown_trial(idx: usize, seed: u64) -> ScenarioResult {
             if !rest_ok {
                 other.push(l.to_string());
             } else if field(l, "rebind_ok=") == "false" {
-                if took >= bound {
+                let late: i64 = field(l, "rebind_late_ms=").parse().unwrap_or(-1);
+                if late < 0 {
+                    other.push(l.to_string()); // the address never became free: the socket is not released at all
+                } else if took >= bound {
                     rebind_after_timeout += 1; // the idle wait hit its bound: draining connections still hold the socket
                 } else {
-                    other.push(l.to_string());
+                    rebind_late_after_idle += 1; // idle was reached, a finishing connection task released the socket a moment later
                 }
             }
         }
-        if other.is_empty() && rebind_after_timeout > 0 {
-            let mut r = ScenarioResult::held(format!("teardown mode={mode_name} rebind-after-timeout")).with_sample(sample.clone());
-            r.note("C08:rebind-after-idle-wait-timeout", rebind_after_timeout, "shutdown() hit its idle-wait bound and returned while draining connections still referenced the old socket: binding the address right away failed");
+        if other.is_empty() && (rebind_after_timeout > 0 || rebind_late_after_idle > 0) {
+            let mut r = ScenarioResult::held(format!("teardown mode={mode_name} rebind-late")).with_sample(sample.clone());
+            if rebind_after_timeout > 0 {
+                r.note("C08:rebind-after-idle-wait-timeout", rebind_after_timeout, "shutdown() hit its idle-wait bound and returned while draining connections still referenced the old socket: binding the address right away failed (and succeeded a moment later)");
+            }
+            if rebind_late_after_idle > 0 {
+                r.note("C08:rebind-late-after-idle", rebind_late_after_idle, "shutdown() returned after the endpoint was idle, yet binding the address right away failed and succeeded a moment later: a finishing connection task still referenced the old socket");
+            }
             r
         } else {
             ScenarioResult::violated(
